@@ -1103,6 +1103,74 @@ func c03(c *h.Ctx) {
 		c.Case(fmt.Sprintf("session/steps=%s", cls(steps)), strings.Join(log, ","), true)
 	}
 
+	// 6b. many requests outstanding at once (a client that pipelines its createStream calls): N requests with
+	// distinct ids first, then the answers in a shuffled order, some twice. No bound on N is part of the property.
+	nburst := c.N(12, 200)
+	for s := 0; s < nburst; s++ {
+		a, b := c03Pair()
+		n := r.Pick(2, 17, 31, 32, 33, 34, 40, 63, 64, 65, 100, 129, 257, 20+r.Intn(300))
+		if !c.Thorough() && s >= 8 {
+			n = 2 + r.Intn(80)
+		}
+		var tids []uint64
+		seen := map[uint64]bool{}
+		alive := true
+		if r.Bool() {
+			x := rtmp.NewConnectAppPacket()
+			x.CommandObject = c03GenObject(r, false, false)
+			tids, seen[c03Bits(x.TransactionID)] = append(tids, c03Bits(x.TransactionID)), true
+			alive = a.send(c, x, 0, fmt.Sprintf("burst %d connect", s))
+			if alive {
+				b.recv(c, x, 0, fmt.Sprintf("burst %d connect", s))
+			}
+		}
+		for i := 0; alive && i < n; i++ {
+			x := rtmp.NewCreateStreamPacket()
+			tid := math.Float64bits(float64(2 + i))
+			if r.Chance(20) {
+				tid = c03GenTid(r)
+			}
+			if seen[tid] || !c03Positive(tid) {
+				tid = math.Float64bits(float64(100000 + i))
+			}
+			seen[tid] = true
+			x.TransactionID = c03Num(tid)
+			tids = append(tids, tid)
+			who := fmt.Sprintf("burst %d request %d/%d", s, i, n)
+			if alive = a.send(c, x, 0, who); alive {
+				b.recv(c, x, 0, who)
+			}
+		}
+		order := r.Perm(len(tids))
+		for i, j := range order {
+			if !alive {
+				break
+			}
+			tid := tids[j]
+			reps := 1
+			if r.Chance(10) {
+				reps = 2 // the second one has no outstanding request any more
+			}
+			for k := 0; alive && k < reps; k++ {
+				var pk rtmp.Packet
+				if j == 0 && len(tids) > n { // the connect
+					x := rtmp.NewConnectAppResPacket(c03Num(tid))
+					x.CommandObject = c03GenObject(r, false, false)
+					pk = x
+				} else {
+					x := rtmp.NewCreateStreamResPacket(c03Num(tid))
+					x.StreamID = c03Num(math.Float64bits(float64(i)))
+					pk = x
+				}
+				who := fmt.Sprintf("burst %d answer %d/%d (rep %d)", s, i, len(tids), k)
+				if alive = b.send(c, pk, 0, who); alive {
+					a.recv(c, pk, 0, who)
+				}
+			}
+		}
+		c.Case(fmt.Sprintf("burst/outstanding=%d..%d", len(tids)/32*32, len(tids)/32*32+31), fmt.Sprintf("burst n=%d", len(tids)), true)
+	}
+
 	// 7. typed waits: A writes a run of packets, B waits for a kind (ExpectPacket) or for message types (ExpectMessage).
 	nwait := c.N(150, 4000)
 	for s := 0; s < nwait; s++ {
